@@ -563,7 +563,7 @@ func ruleHandlerDiscipline(c *Ctx, rule string) {
 	for owner, ok := range hasReturn {
 		c.check(ok, rule, "template:error-handler-returns", L.pos(owner.Pos()), "every error handler ends the enclosing function with a return", where[owner].fnName())
 	}
-	c.floor(rule, "statements emitted by error handlers", m, 4)
+	c.floor(rule, "statements emitted by error handlers", m, 3)
 	// (c) a handler reports the error expression it was given: the parameter is never reassigned, the emitted return's last
 	// result is the parameter, and a handler that delegates passes the parameter on unchanged
 	nH := 0
@@ -635,7 +635,7 @@ func ruleHandlerDiscipline(c *Ctx, rule string) {
 			})
 		}
 	}
-	c.floor(rule, "error handler functions", nH, 3)
+	c.floor(rule, "error handler functions", nH, 2)
 }
 
 func isHandlerSig(t types.Type) bool {
